@@ -162,6 +162,7 @@ type Result struct {
 	Fset       *token.FileSet
 	FaultFired map[string]int
 	Discarded  []string // import paths referenced only through discarded operands
+	FirstFile  string   // the file that was current at the start (force-imports go there)
 }
 
 // Build compiles p under front f. Every build has its own file set and importer.
@@ -288,8 +289,11 @@ func (e *Env) build(p *prog.Program, f *Front, hooks *minicl.Hooks, ce *CorpusEn
 			r.Names = append(r.Names, s.File)
 		}
 	}
-	for _, sf := range files {
-		if !seen[sf.Name] && !(f.NFiles > 0 && len(f.FileAssign) > 0) {
+	if len(files) > 0 {
+		r.FirstFile = files[0].Name
+	}
+	for i, sf := range files {
+		if !seen[sf.Name] && (!(f.NFiles > 0 && len(f.FileAssign) > 0) || (i == 0 && len(p.ForceImports) > 0)) {
 			seen[sf.Name] = true
 			r.Names = append(r.Names, sf.Name)
 		}
@@ -484,3 +488,6 @@ func trimStack(st string) string {
 	}
 	return strings.Join(out, " <- ")
 }
+
+// Names0 is the file that received the force-imports.
+func (r *Result) Names0() string { return r.FirstFile }
